@@ -157,6 +157,13 @@ class HarnessBuild:
         for e in self.entries: cmd += ['--entry', e]
         for o in overrides: cmd += ['--override', o]
         for r in h.get('roots', []): cmd += ['--root', r]
+        # functions the harness declares unreachable (prefix match on the mangled name): checked, not assumed
+        if h.get('unreachable'):
+            names = re.findall(r'^define [^@]*@("[^"]*"|[-a-zA-Z$._0-9]+)\(', open(ll).read(), re.M)
+            for pref in h['unreachable']:
+                for nm in names:
+                    nm = nm.strip('"')
+                    if nm.startswith(pref): cmd += ['--unreachable', nm]
         cmd += h.get('ir2c_flags', [])
         rc, out, w, _, to = run(cmd, timeout=600)
         if rc != 0: raise Inconclusive('ir2c failed for %s:\n%s' % (self.hname, out[-3000:]))
